@@ -49,7 +49,9 @@ HOOK_FLOORS = {"quick": {"parser_init": 10000, "nested_parser_init": 1000},
                "thorough": {"parser_init": 500000,
                             "nested_parser_init": 100000}}
 
-SCHEMA = ("<schema><sectiontype name='s'><multikey name='k' attribute='k'/>"
+SCHEMA = ("<schema><sectiontype name='s' datatype='zcverif_dt.fam.reenter_sect'>"
+          "<multikey name='k' attribute='k' "
+          "datatype='zcverif_dt.fam.reenter_str'/>"
           "<multisection type='s' name='*' attribute='ss'/></sectiontype>"
           "<multikey name='k' attribute='k'/><key name='o'/>"
           "<multisection type='s' name='*' attribute='ss'/></schema>")
